@@ -143,13 +143,19 @@ Proof.
   revert key its. change (enc_ord v). induction v using value_ind2.
   - intros key its _ H. cbn [enc] in H. exists 1. destruct (esc o x); injection H as <-;
       [apply close_or_empty_ordered, kstrict_nil | apply scalar_elem_ordered].
-  - intros key its _ H. injection H as <-. exists 1. apply scalar_elem_ordered.
+  - intros key its _ H. cbn [enc] in H. exists 1. destruct (fmt_v _); injection H as <-;
+      [apply close_or_empty_ordered, kstrict_nil | apply scalar_elem_ordered].
   - intros key its _ H. injection H as <-. exists 1. apply close_or_empty_ordered, kstrict_nil.
-  - intros key its _ H. injection H as <-. exists 1. apply scalar_elem_ordered.
-  - intros key its _ H. injection H as <-. exists 1. apply scalar_elem_ordered.
-  - intros key its _ H. injection H as <-. exists 1. apply scalar_elem_ordered.
-  - intros key its _ H. injection H as <-. exists 1. apply scalar_elem_ordered.
-  - intros key its _ H. injection H as <-. exists 1. apply scalar_elem_ordered.
+  - intros key its _ H. cbn [enc] in H. exists 1. destruct (fmt_v _); injection H as <-;
+      [apply close_or_empty_ordered, kstrict_nil | apply scalar_elem_ordered].
+  - intros key its _ H. cbn [enc] in H. exists 1. destruct (fmt_v _); injection H as <-;
+      [apply close_or_empty_ordered, kstrict_nil | apply scalar_elem_ordered].
+  - intros key its _ H. cbn [enc] in H. exists 1. destruct (fmt_v _); injection H as <-;
+      [apply close_or_empty_ordered, kstrict_nil | apply scalar_elem_ordered].
+  - intros key its _ H. cbn [enc] in H. exists 1. destruct (fmt_v _); injection H as <-;
+      [apply close_or_empty_ordered, kstrict_nil | apply scalar_elem_ordered].
+  - intros key its _ H. cbn [enc] in H. exists 1. destruct (fmt_v _); injection H as <-;
+      [apply close_or_empty_ordered, kstrict_nil | apply scalar_elem_ordered].
   - apply enc_map_ord. assumption.
   - apply enc_list_ord. assumption.
 Qed.
